@@ -144,6 +144,11 @@ def classify(prop, case, res, idx):
                 if e[0] == 19 and e[1] == 18 and e[2][2] == n and e[2][0] == ev[2][0]:
                     if any(x[0] == 19 and x[1] == 15 and x[2][0] == 2 and x[2][2] == ev[2][0] for x in before[k:]):
                         return "input-beneath-modal:prompt-outlived-its-entry"
+                    # (4) the prompt was issued for a screen that was never processed (re-prompt of a freshly pushed top
+                    # screen after a rejected line): it is registered as a signal source nowhere, its ready signal falls
+                    # back to the active (modal) level
+                    if not any(x[0] == 22 and x[1] == ev[2][0] for x in before[:k]):
+                        return "input-beneath-modal:prompt-for-unregistered-screen"
     if prop == "C06" and kind == "INPUT":
         # finding F15: InputManager._input_args is one slot per screen: a LATER request of the same screen
         # (refused, or still outstanding) overwrote the args of the request this line answers
